@@ -281,6 +281,44 @@ pub fn run(args: &[String]) -> Vec<String> {
             }
         ));
     }
+    // a device without space: the write (large windows) or the flush (small ones) fails; work() must return the
+    // error and must not consume what did not reach the file
+    if std::path::Path::new("/dev/full").exists() {
+        for n in [1usize, 100, 2047, 2048, 5000] {
+            for mode in [Mode::Overwrite, Mode::Append] {
+                let mname = if matches!(mode, Mode::Append) { "append" } else { "overwrite" };
+                rustradio::verif::set_stream_size(0);
+                let (w, r) = new_stream::<u32>();
+                let res = quiet(|| -> Result<(), String> {
+                    let mut b = FileSink::new(r, "/dev/full", mode).map_err(|e| format!("cannot open /dev/full: {e}"))?;
+                    let data: Vec<u32> = (0..n as u32).collect();
+                    {
+                        let mut wb = w.write_buf().map_err(|e| e.to_string())?;
+                        wb.fill_from_slice(&data);
+                        wb.produce(data.len(), &[]);
+                    }
+                    let ret = b.work().map(|_| ());
+                    let left = r_len(&w);
+                    // keep the failing BufWriter from panicking or blocking on drop
+                    std::mem::forget(b);
+                    match ret {
+                        Ok(()) => Err(format!("work() returned Ok although nothing can be written ({} of {n} samples consumed)", n - left)),
+                        Err(_) if left != n => Err(format!("work() failed but consumed {} of {n} samples", n - left)),
+                        Err(_) => Ok(()),
+                    }
+                });
+                rustradio::verif::set_stream_size(4096);
+                out.push(format!(
+                    "!fsink full-device samples={n} mode={mname}\t{}",
+                    match res {
+                        Ok(Ok(())) => "pass".to_string(),
+                        Ok(Err(e)) => format!("FAIL {e}"),
+                        Err(p) => format!("FAIL panic: {p}"),
+                    }
+                ));
+            }
+        }
+    }
     for i in 0..kills {
         let mut r = rng.fork();
         out.push(kill_case(if i % 2 == 0 { "stream" } else { "packet" }, i, &mut r, dir.path()));
